@@ -1010,7 +1010,7 @@ func (c *Ctx) docDetachRule(rule string) {
 // of the source, interpreted here in its own language (RE2) – no repository code runs.
 func (c *Ctx) patternWitnessRule(rule string) {
 	r := c.R
-	r.Rule(rule, "line patterns (constants): reGoBuildGen accepts go:generate lines and every spelling of a build constraint that requires the convergen tag (//go:build convergen, // +build convergen, convergen && X, convergen,X) and rejects other constraints and prose; reConvergen accepts `// :convergen` (with or without spaces) and rejects `:convergence` and a marker mentioned inside a sentence; reNotation accepts `// :name args` with groups (name, args)")
+	r.Rule(rule, "line patterns (constants): reGoBuildGen accepts //go:generate lines and every spelling of a build line that mentions the convergen tag (//go:build convergen, two spaces, a tab, parentheses, X && convergen, // +build convergen, X,convergen) and rejects other constraints, `// go:generate …` prose and words that merely contain the tag; reConvergen accepts `// :convergen` (with or without spaces) and rejects `:convergence` and a marker mentioned inside a sentence; reNotation accepts `// :name args` with groups (name, args)")
 	type w struct {
 		line string
 		want bool
@@ -1019,6 +1019,9 @@ func (c *Ctx) patternWitnessRule(rule string) {
 		"parser.reGoBuildGen": {
 			{"//go:build convergen", true}, {"// +build convergen", true}, {"//go:generate go run github.com/reedom/convergen@v0.7.0", true},
 			{"//go:build convergen && !purego", true}, {"// +build convergen,!purego", true}, {"//go:generate convergen", true},
+			{"//go:build  convergen", true}, {"//go:build\tconvergen", true}, {"//go:build (convergen)", true}, {"//go:build !ignore && convergen", true},
+			{"// +build  convergen", true}, {"// +build !ignore,convergen", true},
+			{"// go:generate is not involved here", false}, {"//go:build convergence", false},
 			{"//go:build linux", false}, {"// +build linux", false}, {"// an ordinary comment", false}, {"// :convergen", false},
 			{"// see //go:build convergen for details", false}, {"//go:generated by hand", false},
 		},
@@ -1510,58 +1513,55 @@ func (c *Ctx) loggerOptionRule(rule string) {
 	}
 }
 
-// emptiedDocRule: the pass that strips directive lines from every comment group does not leave an emptied group linked
-// as the file's doc comment.
+// emptiedDocRule: the pass that strips directive lines from every comment group leaves no emptied group linked.
 func (c *Ctx) emptiedDocRule(rule string) {
 	r := c.R
-	r.Rule(rule, "util.RemoveMatchComments (strips lines from every group of File.Comments) returns only after File.Doc was dropped when it lost all its lines: every return is reached through `file.Doc = nil`, or under file.Doc == nil, or under len(file.Doc.List) != 0 (an empty group has no position: the next position lookup over the file panics)")
+	r.Rule(rule, "util.RemoveMatchComments strips lines from every group of File.Comments and afterwards walks the whole file (ast.Inspect, the callback never stops) dropping the Doc link of File, GenDecl, FuncDecl, TypeSpec, ValueSpec and Field – and the line-comment link of specs and fields – when the group lost all its lines (an empty group has no position: the next position lookup over the file panics); each drop is `link = nil` under len(link.List) == 0 (rule doc-detach)")
 	fn := c.MustFunc(rule, "/pkg/util", "RemoveMatchComments")
 	if fn == nil {
 		return
 	}
-	var fileParam string
-	for _, p := range fn.Params {
-		if strings.HasSuffix(p.Type().String(), "go/ast.File") {
-			fileParam = "param:" + p.Name()
-		}
-	}
-	if fileParam == "" {
-		r.Undecided(rule, FnKey(fn), "no *ast.File parameter")
-		return
-	}
-	blocked := map[*ssa.BasicBlock]bool{}
-	for _, b := range fn.Blocks {
-		for _, in := range b.Instrs {
-			st, ok := in.(*ssa.Store)
-			if !ok {
-				continue
-			}
-			fa, ok := st.Addr.(*ssa.FieldAddr)
-			k, isK := st.Val.(*ssa.Const)
-			if ok && isK && k.IsNil() && core.FieldName(fa.X.Type(), fa.Field) == "ast.File.Doc" && c.O.Of(fa.X).String() == fileParam {
-				blocked[b] = true
+	// links whose address is taken anywhere in the function or its closures (handed to the unlink helper or tested in place)
+	links := map[string]bool{}
+	stops := false
+	var visit func(f *ssa.Function)
+	visit = func(f *ssa.Function) {
+		for _, b := range f.Blocks {
+			for _, in := range b.Instrs {
+				if fa, ok := in.(*ssa.FieldAddr); ok {
+					n := core.FieldName(fa.X.Type(), fa.Field)
+					if strings.HasPrefix(n, "ast.") && (strings.HasSuffix(n, ".Doc") || strings.HasSuffix(n, ".Comment")) {
+						links[n] = true
+					}
+				}
 			}
 		}
-	}
-	isDoc := func(t *core.Term) bool { return t.IsField("ast.File.Doc") && t.Args[0].String() == fileParam }
-	docNil := c.M(true, isNilCmp(isDoc))
-	nonEmpty := c.M(false, eqConst(func(t *core.Term) bool {
-		return t.IsCallTo("builtin:len") && t.Args[0].IsField("ast.CommentGroup.List") && isDoc(t.Args[0].Args[0])
-	}, "0"))
-	av := c.ReachAvoid(fn, blocked)
-	okAll := len(blocked) > 0
-	var bad core.DNF
-	for _, ret := range core.Returns(fn) {
-		if blocked[ret.Block()] {
-			continue
-		}
-		d := av.At(ret.Block())
-		if d != nil && !d.Implies(docNil, nonEmpty) {
-			okAll = false
-			bad = d
+		for _, a := range f.AnonFuncs {
+			visit(a)
 		}
 	}
-	r.Check(rule, FnKey(fn)+":drops-emptied-file-doc", c.Pos(fn.Pos()), okAll, "RemoveMatchComments can return with an emptied comment group still linked as File.Doc; reach avoiding the detachment: "+bad.Describe(c.O))
+	visit(fn)
+	walked := false
+	for _, s := range c.CallsIn(fn, "go/ast.Inspect", true) {
+		walked = true
+		if mc, ok := s.Args()[1].(*ssa.MakeClosure); ok {
+			for _, ret := range core.Returns(mc.Fn.(*ssa.Function)) {
+				if !c.O.Of(ret.Results[0]).Is("const", "true") {
+					stops = true
+				}
+			}
+		} else if f2, ok := s.Args()[1].(*ssa.Function); ok {
+			for _, ret := range core.Returns(f2) {
+				if !c.O.Of(ret.Results[0]).Is("const", "true") {
+					stops = true
+				}
+			}
+		}
+	}
+	for _, want := range []string{"ast.File.Doc", "ast.GenDecl.Doc", "ast.FuncDecl.Doc", "ast.TypeSpec.Doc", "ast.ValueSpec.Doc", "ast.Field.Doc", "ast.TypeSpec.Comment", "ast.Field.Comment"} {
+		r.Check(rule, FnKey(fn)+":unlinks:"+want, c.Pos(fn.Pos()), links[want], "an emptied comment group can stay linked as "+want+": a directive line that is the whole comment of such a node (e.g. //go:generate above a `type ( … )` group) makes the next position lookup panic")
+	}
+	r.Check(rule, FnKey(fn)+":walks-whole-file", c.Pos(fn.Pos()), walked && !stops, "the links are not visited by a complete walk of the file (ast.Inspect with a callback that always returns true)")
 }
 
 // overlayRule: the loader never lets the go command read the file at the output path.
@@ -2126,4 +2126,20 @@ func (c *Ctx) logPathRule(rule string) {
 		}
 	}
 	r.Check(rule, FnKey(fn)+":log≠output", c.Pos(fn.Pos()), okAll && n >= 1, "ParseArgs can succeed with Config.Log == Config.Output; reach: "+bad.Describe(c.O))
+}
+
+// identifierRule: a receiver name given by :recv is a Go identifier that is not a keyword.
+func (c *Ctx) identifierRule(rule string) {
+	r := c.R
+	r.Rule(rule, "parser.isValidIdentifier(id) ⇒ go/token.IsIdentifier(id) (an identifier of the language that is not a keyword: `a_` is valid, `type` is not) ∧ id != \"_\"")
+	fn := c.MustFunc(rule, "/pkg/parser", "isValidIdentifier")
+	if fn == nil {
+		return
+	}
+	p0 := "param:" + fn.Params[0].Name()
+	tr := c.Reach(fn).RetCond(0, true)
+	isIdent := c.M(true, func(t *core.Term) bool { return t.IsCallTo("go/token.IsIdentifier") && t.Args[0].String() == p0 })
+	notBlank := c.M(false, eqConst(func(t *core.Term) bool { return t.String() == p0 }, `"_"`))
+	r.Check(rule, FnKey(fn)+":identifier", c.Pos(fn.Pos()), len(tr) > 0 && tr.Implies(isIdent), "a name is accepted without token.IsIdentifier: keywords pass (`:recv type` fails much later with a misleading position) or legal names are rejected; true-condition: "+tr.Describe(c.O))
+	r.Check(rule, FnKey(fn)+":not-blank", c.Pos(fn.Pos()), len(tr) > 0 && tr.Implies(notBlank), "the blank identifier is accepted as a receiver name")
 }
